@@ -3,6 +3,7 @@ module verifharness
 go 1.23
 
 require (
+	github.com/asticode/go-astits v1.13.0
 	github.com/bluenviron/gohlslib/v2 v2.0.0
 	github.com/bluenviron/mediacommon/v2 v2.1.0
 	pgregory.net/rapid v1.3.0
@@ -11,7 +12,6 @@ require (
 require (
 	github.com/abema/go-mp4 v1.4.1 // indirect
 	github.com/asticode/go-astikit v0.30.0 // indirect
-	github.com/asticode/go-astits v1.13.0 // indirect
 	github.com/google/uuid v1.3.0 // indirect
 )
 
